@@ -159,6 +159,7 @@ type Options struct {
 	Invalid      bool // inject one unresolvable or ill-typed reference (compile must fail)
 	NoServices   bool
 	StructConsts bool // constants (and defaults) of struct type written as map literals
+	RecDefaults  bool // recursive structures whose back-pointer has a struct-constant default (open finding F6)
 	Recursive    bool // recursive types: a struct reaching itself through typedef chains / containers / other structs
 }
 
@@ -216,7 +217,7 @@ func Gen(o Options) *Program {
 	}
 	// definitions, created leaf files first so that includers can refer to them
 	p.sameNames = o.SameNames
-	p.recDefaults = o.StructConsts
+	p.recDefaults = o.RecDefaults
 	for i := nf - 1; i >= 0; i-- {
 		f := p.Files[i]
 		p.curFile = f
@@ -240,6 +241,9 @@ func Gen(o Options) *Program {
 	}
 	if o.Recursive && simrt.Flip("prog.recursive", 0.4) {
 		p.addRecursion()
+	}
+	if o.StructConsts && simrt.Flip("prog.enum-struct-const", 0.5) {
+		p.addEnumStructConst(o)
 	}
 	if o.Dotted && simrt.Flip("prog.dotted", 0.25) {
 		p.addDotted(o)
@@ -302,6 +306,43 @@ func (p *Program) addRecursion() {
 		}
 	}
 	s.Fields = append(s.Fields, &FieldDef{ID: id, Name: fmt.Sprintf("self%d", id), Req: ReqOptional, Type: target})
+}
+
+// addEnumStructConst adds a struct whose optional fields have enum / typedef
+// types (preferably from different files, possibly with the same name) and a
+// constant that sets several of them in one literal: rendering such a literal
+// declares one helper per field type and imports their packages.
+func (p *Program) addEnumStructConst(o Options) {
+	f := p.Files[ch("esc.file", len(p.Files))]
+	var cands []*Def
+	for _, d := range p.visible(f, KEnum, KTypedef) {
+		switch p.KindOf(&TypeRef{Ref: &Ref{d.File, d.Name}}) {
+		case "enum", "int", "string", "bool", "double":
+			cands = append(cands, d)
+		}
+	}
+	if len(cands) == 0 {
+		return
+	}
+	s := &Def{Kind: KStruct, Name: p.name("S")}
+	n := 2 + ch("esc.fields", 3)
+	for i := 0; i < n; i++ {
+		var t *TypeRef
+		if simrt.Flip("esc.primitive", 0.25) {
+			t = &TypeRef{Base: []string{"i32", "string", "bool", "double"}[ch("esc.base", 4)]}
+		} else {
+			d := cands[ch("esc.type", len(cands))]
+			t = &TypeRef{Ref: &Ref{d.File, d.Name}}
+		}
+		s.Fields = append(s.Fields, &FieldDef{ID: i + 1, Name: fmt.Sprintf("opt%d", i+1), Req: ReqOptional, Type: t})
+	}
+	p.add(f, s)
+	c := p.add(f, &Def{Kind: KConst, Name: p.name("C"), Type: &TypeRef{Ref: &Ref{s.File, s.Name}}})
+	v := &ConstVal{Kind: CStruct}
+	for _, fd := range s.Fields {
+		v.Items = append(v.Items, &ConstVal{Kind: CString, Str: fd.Name}, p.genValue(f, fd.Type, o, 2))
+	}
+	c.Value = v
 }
 
 // addDotted adds a local typedef whose name looks include-qualified
